@@ -213,6 +213,10 @@ def _axis_entries(b, e, babs, eabs, host):
         rel.append((b - host, e - host))
     elif babs and eabs:
         ab.append((b, e))
+    elif b == e:
+        # one index named twice, once absolutely and once relatively (for example $3:3): both sets hold it
+        ab.append((b, b))
+        rel.append((b - host, b - host))
     elif babs:
         ab.append((b, b))
         rel.append((b + 1 - host, e - host))
